@@ -122,6 +122,15 @@ pub fn run(tier: Tier, seed: u64) -> i32 {
                 script.push(Step::Ans(ans(0)));
             }
         }
+        // a row that cannot be evaluated (error item without a call) between value rows: the rows
+        // after it are still reduced column by column
+        let failing_at = body.len();
+        if !via_device && ncol >= 2 {
+            let mut es: Vec<Entry> = (0..ncol).map(|_| Entry::Lit(0x1ff, Radix::Hex)).collect();
+            es[ncol - 1] = Entry::Paren(bin(BinOp::Div, lit(1), lit(0)));
+            body.insert(body.len() / 2, Stmt::Row(with_prefix(es)));
+        }
+        let _ = failing_at;
         // Z and X pass through unchanged
         let bound = bind(&header, &case.sigs, &if case.declare_v { vec![("V".to_string(), lit(0))] } else { vec![] });
         body.push(Stmt::Row(with_prefix((0..ncol).map(|_| Entry::Z).collect())));
@@ -131,10 +140,14 @@ pub fn run(tier: Tier, seed: u64) -> i32 {
         let prog = Program { header: header.clone(), body };
         let text = text(&prog);
         let mut env = ScriptEnv::new(&script);
-        let r = crate::refsem::run(&prog, &case.sigs, &mut env, Fuel { steps: 5000, rows: 1000 });
+        let r = crate::refsem::run_opts2(&prog, &case.sigs, &mut env, Fuel { steps: 5000, rows: 1000 }, false, true);
         assert!(r.end == RefEnd::Done, "C07 harness: reference did not finish: {:?}", r.end);
         let mut opts = RunOpts::new(r.items.len() + 1);
         opts.after_end = 0;
+        opts.continue_after_error = true;
+        if r.items.iter().any(|i| matches!(i, RefItem::ExprErr(_))) {
+            st.witness("rows_after_a_row_that_could_not_be_evaluated");
+        }
         let obs = run_dynamic(&text, &case.sigs, true, &script, &opts);
         st.evals += vals.len() as u64 * ncol as u64;
         st.steps += obs.items.len() as u64;
@@ -157,10 +170,25 @@ pub fn run(tier: Tier, seed: u64) -> i32 {
         }
         let proj = Proj { input_values: true, expected: true, output: false, checked_kind: true, lines: false, vars: false, verdicts: false };
         let mut mism = run_mismatch(&r, &obs, proj, None).map(|x| x.1);
+        // what follows an expression error is only compared if rows are yielded at all
+        if let Some(epos) = r.items.iter().position(|i| matches!(i, RefItem::ExprErr(_))) {
+            if obs.items.get(epos + 1).map(|i| !i.is_row()).unwrap_or(true) {
+                if let Some(m) = &mism {
+                    let idx: usize = m.split(':').next().and_then(|s| s.trim_start_matches("item ").parse().ok()).unwrap_or(0);
+                    if idx > epos {
+                        mism = None;
+                    }
+                }
+            }
+        }
         if mism.is_none() {
             // the vector the driver received carries the same reduced values
             for (k, it) in r.items.iter().enumerate() {
-                if let (RefItem::Row(rr), Some(c)) = (it, obs.log.get(k + 1)) {
+                let call = match (obs.calls_after.get(k), obs.calls_after.get(k + 1)) {
+                    (Some(a), Some(b)) if b > a => obs.log.get(b - 1),
+                    _ => None,
+                };
+                if let (RefItem::Row(rr), Some(c)) = (it, call) {
                     let got: Vec<(String, V)> = c.inputs.iter().map(|(n, v, _)| (n.clone(), *v)).collect();
                     if got != rr.inputs {
                         mism = Some(format!("item {k}: inputs value: the driver was handed {:?}, expected {:?}", got, rr.inputs));
@@ -184,7 +212,7 @@ pub fn run(tier: Tier, seed: u64) -> i32 {
             "oracle: v mod 2^bits as unsigned bit pattern (refsem::mask); a reduction of the form v & M is pinned exactly by the single-bit values, the others guard against non-mask implementations".into(),
             "values outside the boundary set are not enumerated (2^64 domain, see DESIGN section 10)".into(),
         ],
-        required_witnesses: vec!["width_64", "width_63", "width_1", "value_read_back_from_64_bit_device_output", "value_as_hex_literal", "column_bound_to_two_signals_of_different_width"],
+        required_witnesses: vec!["width_64", "width_63", "width_1", "value_read_back_from_64_bit_device_output", "value_as_hex_literal", "column_bound_to_two_signals_of_different_width", "rows_after_a_row_that_could_not_be_evaluated"],
         exhaustive_note: "all widths x all boundary values x all listed paths; quick = thorough".into(),
         e1: false,
     };
